@@ -17,7 +17,7 @@ import (
 func init() {
 	core.Register(&core.Prop{
 		ID: "C19",
-		Rule: "case = one network of 2-60 (300 thorough) nodes on a jittered grid with positive, well separated coordinates (trees, grids with diagonals, two components, a long cheap detour against a short expensive chain, fast-far against slow-near) whose links are poly-lines with 0-4 bends and positive speeds over two decades, added in random order and orientation, for Distance or Time minimisation, queried at 8 point pairs (random and exactly on nodes); 40% of networks are built incrementally in 2-4 batches with 4 queries after each batch, judged against exactly the links added so far (later AddLink calls then create new nodes and link already-existing nodes on a network that has answered queries); oracle = the harness's own graph (nodes by exact end-point equality) with Dijkstra: start/end nodes are the true nearest nodes, the returned links form a chain between them, reported totals are the sums over the returned links, the chosen cost equals the Dijkstra optimum (1e-9), disconnected pairs give an empty route; " +
+		Rule: "case = one network of 2-60 (300 thorough) nodes on a jittered grid with positive, well separated coordinates (trees, grids with diagonals, two components, a long cheap detour against a short expensive chain, fast-far against slow-near) whose links are poly-lines with 0-4 bends and positive speeds over two decades, added in random order and orientation, for Distance or Time minimisation, queried at 8 point pairs (random and exactly on nodes); a second phase (thorough tier only: building one takes a minute) builds 32 jittered grids of 50 000-110 000 nodes, half of them in a lon/lat window with 1e-4 degree spacing; 40% of networks are built incrementally in 2-4 batches with 4 queries after each batch, judged against exactly the links added so far (later AddLink calls then create new nodes and link already-existing nodes on a network that has answered queries); oracle = the harness's own graph (nodes by exact end-point equality) with Dijkstra: start/end nodes are the true nearest nodes, the returned links form a chain between them, reported totals are the sums over the returned links, the chosen cost equals the Dijkstra optimum (1e-9), disconnected pairs give an empty route; " +
 			"an evaluation is one query judged; non-trivial = query whose optimal route has >= 2 links and differs in cost from the fewest-links route; distinct by (network hash, query)",
 		Assumptions: []string{"no self loops, no parallel links (as the property states)", "queries whose nearest node is ambiguous within 1e-9 relative are skipped"},
 		Phases: []core.Phase{{Name: "networks", NumCases: func(t string) int {
@@ -25,12 +25,26 @@ func init() {
 				return 100000
 			}
 			return 2000
+		}}, {Name: "large", NumCases: func(t string) int {
+			if t == "thorough" {
+				return 32
+			}
+			return 0 // building one such network takes about a minute (two nearest-neighbour searches per AddLink)
 		}}},
 		Run: run,
 		Floors: func(t string) map[string]int64 {
-			return map[string]int64{"query.connected": 5000, "query.disconnected": 200, "query.same_node": 100, "query.optimal_differs_from_fewest_links": 200, "minimise.Distance": 300, "minimise.Time": 300, "topology.detour": 100, "topology.two_components": 100, "topology.grid": 100, "topology.tree": 100, "query.on_node": 1000, "order.fastest_first": 100, "order.incremental_queries_between_addlinks": 300, "incremental.link_between_existing_nodes_after_query": 300}
+			if t == "thorough" {
+				m := floorsC19()
+				m["large.networks"], m["large.nodes"] = 16, 1000000
+				return m
+			}
+			return floorsC19()
 		},
 	})
+}
+
+func floorsC19() map[string]int64 {
+	return map[string]int64{"query.connected": 5000, "query.disconnected": 200, "query.same_node": 100, "query.optimal_differs_from_fewest_links": 200, "minimise.Distance": 300, "minimise.Time": 300, "topology.detour": 100, "topology.two_components": 100, "topology.grid": 100, "topology.tree": 100, "query.on_node": 1000, "order.fastest_first": 100, "order.incremental_queries_between_addlinks": 300, "incremental.link_between_existing_nodes_after_query": 300}
 }
 
 type link struct {
@@ -220,9 +234,46 @@ func genNetwork(c *core.Ctx, r *gen.R) (*netw, string) {
 	return n, topo
 }
 
+// genLarge builds one jittered grid network of 50 000 - 110 000 nodes (sizes at which
+// anything keyed by a 32-bit quantity starts to collide).
+func genLarge(c *core.Ctx, r *gen.R) (*netw, string) {
+	n := &netw{adj: map[int][]int{}}
+	cell := math.Pow(10, r.Range(-3, 2))
+	ox, oy := cell*r.Range(5, 50), cell*r.Range(5, 50)
+	if r.Bool() {
+		ox, oy = -93.3+r.Range(-1, 1), 44.9+r.Range(-1, 1) // a lon/lat window
+		cell = 1e-4 * r.Range(0.5, 2)
+	}
+	w, h := r.IntRange(230, 330), r.IntRange(230, 330)
+	for j := 0; j < h; j++ {
+		for i := 0; i < w; i++ {
+			n.nodes = append(n.nodes, geom.Point{X: ox + cell*(float64(i)+r.Range(-0.3, 0.3)), Y: oy + cell*(float64(j)+r.Range(-0.3, 0.3))})
+		}
+	}
+	for j := 0; j < h; j++ {
+		for i := 0; i < w; i++ {
+			if i+1 < w && r.Chance(0.9) {
+				n.addLink(r, j*w+i, j*w+i+1, math.Pow(10, r.Range(0, 1)), 0, 0)
+			}
+			if j+1 < h && r.Chance(0.9) {
+				n.addLink(r, j*w+i, (j+1)*w+i, math.Pow(10, r.Range(0, 1)), 0, 0)
+			}
+		}
+	}
+	c.Count("large.networks")
+	c.Add("large.nodes", int64(len(n.nodes)))
+	return n, "large_grid"
+}
+
 func run(c *core.Ctx, idx int) {
 	r := c.R
-	nw, topo := genNetwork(c, r)
+	var nw *netw
+	var topo string
+	if c.Phase == "large" {
+		nw, topo = genLarge(c, r)
+	} else {
+		nw, topo = genNetwork(c, r)
+	}
 	if len(nw.links) == 0 {
 		return
 	}
@@ -257,7 +308,11 @@ func run(c *core.Ctx, idx int) {
 	}
 	// insertion order: as generated (random), or sorted by speed (the fastest / slowest link
 	// first matters for anything the network accumulates while links are added)
-	switch r.Intn(5) {
+	order := r.Intn(5)
+	if len(nw.links) > 5000 {
+		order = 4
+	}
+	switch order {
 	case 0:
 		sortLinks(nw, func(a, b *link) bool { return a.speed > b.speed })
 		c.Count("order.fastest_first")
